@@ -27,13 +27,18 @@ End ==
   /\ EndStep
   /\ Rec[l].state = state           \* what step() left behind and returned
   /\ l' = l + 1 /\ ends' = ends + 1
+\* a burn-in sweep of a sampler-level run: its end state is not returned, only that it was one complete sweep
+EndB ==
+  /\ l <= Len(Rec) /\ Rec[l].e = "endb"
+  /\ EndStep
+  /\ l' = l + 1 /\ ends' = ends + 1
 \* a sampler-level run() asked this chain for `sweeps` transitions: the chain's OWN conditional (the one the caller
 \* installed in the chain) was queried for every one of them
 Ran ==
   /\ l <= Len(Rec) /\ Rec[l].e = "ran"
   /\ next = 1 /\ Rec[l].sweeps = ends
   /\ UNCHANGED <<gvars, ends>> /\ l' = l + 1
-Next == Start \/ Call \/ End \/ Ran
+Next == Start \/ Call \/ End \/ EndB \/ Ran
 Spec == Init /\ [][Next]_vars
 
 TraceAccepted ==
